@@ -213,7 +213,7 @@ pub fn run_backend(backend: u8, run: &RunCfg, case: u64, stop_after: Option<usiz
 pub fn main(tier: &str, seed: u64, outdir: &str) {
     let mut cases = Cases::new();
     let mut rep = Report::new("C14");
-    let n = if tier == "thorough" { 420 } else { 84 };
+    let n = if tier == "thorough" { 7000 } else { 84 };
     for case in 0..n {
         let mut r = Sm::new(seed, "C14", case);
         let mut run = gen_cfg(&mut r, case / 7);
